@@ -66,4 +66,5 @@ meta["needs_to_manifest"] = "see NOTES.md excerpt"; meta["breaker_notes"] = note
 meta["what_was_run"] = f"scratch worktree {wt}: demo on pinned tree (rc {rc0}), full pytest suite with the change ({line}), demo with the change (rc {rc1}); then " + ("`git -C /repo apply patch.diff; bin/check {pid} <tier>; git -C /repo checkout -- .`" if MODE == "repo" else f"patch applied in the scratch worktree and `VERIF_REPO={wt} bin/check {pid} <tier>` (builders were using /repo at the time)")
 json.dump(meta, open(f"{d}/meta.json", "w"), indent=1)
 sh("rm -rf /verif/evidence/replay")
+sh(f"git -C /verif checkout -- evidence/{pid}.json")  # the run on the changed tree rewrote it
 print("DETECTED" if meta["detected"] else "MISSED", json.dumps(res, indent=1)[:1500])
